@@ -124,8 +124,14 @@ def enumerate_junctions(C):
 
     def check(desc, expr, expected):
         nonlocal count
-        for how, text in (('repr', repr(expr)), ('str', str(expr))):
+        for how, render in (('repr', repr), ('str', str)):
             count += 1
+            try:
+                text = render(expr)
+            except Exception as e:
+                # the real printing code raised: the expression does not print at all
+                fails.append('%s: %s(...) raises %s: %s' % (desc, how, type(e).__name__, e))
+                continue
             try:
                 got = eval(text, dict(bind))
             except Exception as e:
